@@ -34,7 +34,7 @@ impl TypeChecker {
     }
 
     /// Validate method call arguments against a method signature.
-    fn validate_method_call_args(
+    pub(in crate::frontend::typechecker::check_expr) fn validate_method_call_args(
         &mut self,
         params: &[(String, ResolvedType)],
         args: &[CallArg],
@@ -68,7 +68,10 @@ impl TypeChecker {
             };
 
             if let Some((arg_ty, arg_span)) = arg {
-                if !self.types_compatible(arg_ty, param_ty) {
+                // A parameter typed by a trait accepts any adopter; conformance is not checked here.
+                let param_is_trait = matches!(param_ty, ResolvedType::Named(n)
+                    if self.symbols.lookup(n).and_then(|id| self.symbols.get(id)).is_some_and(|s| matches!(s.kind, SymbolKind::Trait(_))));
+                if !param_is_trait && !self.types_compatible(arg_ty, param_ty) {
                     self.errors.push(errors::type_mismatch(
                         &param_ty.to_string(),
                         &arg_ty.to_string(),
